@@ -21,7 +21,8 @@ import (
 func init() { Register(&Check{ID: "C01", Level: "model_checking", Run: runC01}) }
 
 type c01Aux struct {
-	minterUpdated bool // a governance update replaced the schedule: the closed form no longer applies
+	sched         *ref.Schedule // the scenario's emission schedule (closed form)
+	minterUpdated bool          // a governance update replaced the schedule: the closed form no longer applies
 	minted        *big.Int
 	dm            *ref.DistModel // what the fee-distribution configuration says should happen to the coins
 }
@@ -212,9 +213,9 @@ func c01Step(si *StepInfo) (interface{}, []*explore.Violation) {
 			bad("mint-vs-event", "bank minted %s, the minter reports %s", minted.AmountOf(mintDenom), mintEvent)
 		}
 		// ... which is what the schedule says (closed form, as long as governance did not replace it)
-		n := &c01Aux{minterUpdated: aux.minterUpdated, minted: new(big.Int).Add(aux.minted, minted.AmountOf(mintDenom).BigInt()), dm: aux.dm}
+		n := &c01Aux{sched: aux.sched, minterUpdated: aux.minterUpdated, minted: new(big.Int).Add(aux.minted, minted.AmountOf(mintDenom).BigInt()), dm: aux.dm}
 		if !aux.minterUpdated {
-			x, eb := c13MinterCfg().Schedule().Cumulative(si.Post.BlockTime())
+			x, eb := aux.sched.Cumulative(si.Post.BlockTime())
 			lo, hi := ref.FloorRange(x, eb)
 			if n.minted.Cmp(lo) < 0 || n.minted.Cmp(hi) > 0 {
 				bad("mint-vs-schedule", "cumulative minted %s at +%s, schedule %s", n.minted, si.Post.BlockTime().Sub(harness.T0), rangeStr(lo, hi))
@@ -341,7 +342,7 @@ func c01Step(si *StepInfo) (interface{}, []*explore.Violation) {
 	// message transitions never change the supply and only move coins between the parties
 	n := aux
 	if _, ok := si.Msg.(*mtypes.MsgUpdateMintersParams); ok && si.Out.Class == harness.OK {
-		n = &c01Aux{minterUpdated: true, minted: aux.minted, dm: aux.dm}
+		n = &c01Aux{sched: aux.sched, minterUpdated: true, minted: aux.minted, dm: aux.dm}
 	}
 	for d := range denoms {
 		if !delta(d).IsZero() {
@@ -364,6 +365,8 @@ func c01Step(si *StepInfo) (interface{}, []*explore.Violation) {
 		allowed[m.ToAddress] = true
 	case *vtypes.MsgMoveAvailableVestingByDenoms:
 		allowed[m.ToAddress] = true
+	case *banktypes.MsgSend: // not a custom-module message; part of the alphabet to fund a source account
+		allowed[m.ToAddress] = true
 	}
 	addrs := map[string]bool{}
 	for a := range preB {
@@ -380,14 +383,102 @@ func c01Step(si *StepInfo) (interface{}, []*explore.Violation) {
 	return n, vs
 }
 
-func runC01(rc *RunCtx) {
-	scn := &Scenario{Name: "c01", Genesis: harness.BuildGenesis(c01Genesis()), T0: harness.T0, Events: c01Events(),
+// c01Variant is one (emission, fee-distribution) configuration of the full application.
+type c01Variant struct {
+	name   string
+	minter mintCfg
+	distr  dtypes.Params
+	govs   bool // include the governance updates of the base alphabet
+}
+
+func c01Variants() []c01Variant {
+	u1, u2 := aU("U1"), aU("U2")
+	return []c01Variant{
+		{"linear+exp / fees->internal->main", c13MinterCfg(), c13DistParams(), true},
+		{"exp only / chain over two internal accounts", mintCfg{Periods: []mp{{Kind: ref.ExpStep, Amount: "1000", Step: 10 * time.Second, Mult: "0.5"}}}, distChains()[0].Params(), false},
+		{"none then linear / share to MAIN", mintCfg{Periods: []mp{{Kind: ref.NoMint, End: 5 * time.Second}, {Kind: ref.Linear, Amount: "777", End: 45 * time.Second}, {Kind: ref.NoMint}}},
+			dcfg{{Sources: []dacc{aMfee}, Primary: aMAIN, Shares: []dshare{{u2, "0.3"}}, Burn: "0.01"}, {Sources: []dacc{aMAIN}, Primary: aMgeb, Shares: []dshare{{u2, "0.333333333333333333"}}, Burn: "0.5"}}.Params(), false},
+		{"linear / several bank sources", mintCfg{Periods: []mp{{Kind: ref.Linear, Amount: "300", End: 30 * time.Second}, {Kind: ref.NoMint}}},
+			dcfg{{Sources: []dacc{aMfee, u1, aMAIN}, Primary: aMgeb, Shares: []dshare{{u2, "0.05"}, {aBlocked(), "0.333333333333333333"}}, Burn: "0.2"}}.Params(), false},
+	}
+}
+
+func c01Scenario(v c01Variant) *Scenario {
+	g := c01Genesis()
+	g.Minter = v.minter.Genesis(harness.T0)
+	g.Distr = &dtypes.GenesisState{Params: v.distr}
+	g.Balances["U1"] = coins(20)
+	var evs []Ev
+	for _, e := range c01Events() {
+		if !v.govs && e.Gov {
+			continue
+		}
+		evs = append(evs, e)
+	}
+	evs = append(evs, Ev{Name: "banksend(A->U1,11)", Build: func(View) (sdk.Msg, string) {
+		return banktypes.NewMsgSend(harness.Addr("A"), harness.Addr("U1"), coins(11)), "A"
+	}})
+	sched := v.minter.Schedule()
+	return &Scenario{Name: "c01[" + v.name + "]", Genesis: harness.BuildGenesis(g), T0: harness.T0, Events: evs,
 		NewAux: func(w *harness.World, root sdk.Context) interface{} {
 			dm := ref.NewDistModel(nil)
 			dm.Bal[ref.AccMain] = amtOfCoins(w.App.BankKeeper.GetAllBalances(root, harness.ModAddr(dtypes.DistributorMainAccount)))
-			return &c01Aux{minted: new(big.Int), dm: dm}
+			// the first block (at genesis time) has already run: take over what it left pending
+			for _, st := range w.App.CfedistributorKeeper.GetAllStates(root) {
+				key := ref.BurnKey
+				if !st.Burn {
+					key = st.Account.Type + "-" + st.Account.Id
+				}
+				a := ref.Amt{}
+				for _, r := range st.Remains {
+					a[r.Denom] = r.Amount.BigInt()
+				}
+				dm.Pending[key] = a
+			}
+			return &c01Aux{sched: &sched, minted: new(big.Int), dm: dm}
 		},
-		StepOracle: c01Step, StateOracle: c01State, BlockPanicProperty: ""}
+		StepOracle: c01Step, StateOracle: c01State}
+}
+
+func runC01(rc *RunCtx) {
+	depth, budget, maxTraces := 4, 90*time.Second, 800
+	if rc.Thorough() {
+		depth, budget, maxTraces = 6, 12*time.Minute, 10000
+	}
+	total := map[string]interface{}{}
+	states, transitions, validated := 0, 0, 0
+	exhaustive := true
+	var samples []interface{}
+	for i, v := range c01Variants() {
+		d := depth
+		if i == 0 && !rc.Thorough() {
+			d = depth + 1 // the base variant carries the governance updates
+		}
+		sub := &RunCtx{ID: rc.ID, Tier: rc.Tier, Seed: rc.Seed, Workers: rc.Workers, Start: rc.Start, Deadline: rc.Deadline}
+		runScenarioCheck(sub, c01Scenario(v), d, budget, maxTraces, "")
+		rc.ViolateAll(sub.viols)
+		rc.MachineryError = rc.MachineryError || sub.MachineryError
+		states += sub.Cov["states"].(int)
+		transitions += sub.Cov["transitions"].(int)
+		validated += sub.Cov["traces_validated_against_impl"].(int)
+		exhaustive = exhaustive && sub.Cov["exhaustive"].(bool)
+		if ss, ok := sub.Cov["samples"].([]interface{}); ok && len(ss) > 0 {
+			samples = append(samples, map[string]interface{}{"configuration": v.name, "history": ss[0]})
+		}
+		delete(sub.Cov, "per_event_outcomes")
+		delete(sub.Cov, "alphabet")
+		total[v.name] = sub.Cov
+		rc.Assume = sub.Assume
+	}
+	total["states"], total["transitions"], total["traces_validated_against_impl"], total["exhaustive"], total["samples"] = states, transitions, validated, exhaustive, samples
+	total["configurations"] = len(c01Variants())
+	rc.Cov = total
+	rc.Level = "model_checking"
+}
+
+func runC01single(rc *RunCtx) {
+
+	scn := c01Scenario(c01Variants()[0])
 	depth, budget, maxTraces := 5, 120*time.Second, 2000
 	if rc.Thorough() {
 		depth, budget, maxTraces = 6, 25*time.Minute, 30000
